@@ -275,3 +275,18 @@ def gate_table(ctx, R, qname, table, sources="entry", sinks="exit", note=""):
             dom, spec = row["cond"]
             check_cond(ctx, R, fi, eff[0].ast, eff[0].expr, dom, spec, row["what"] + " (meaning)",
                        row.get("msg") or row["what"], closed=True)
+
+
+def borrowed(module, fname, src, dst, **kw):
+    """run another property's rule under this property's name: the obligation is a necessary
+    condition of both properties (src/dst are rule-name prefixes, e.g. 'C10.PEER-VALUES' ->
+    'C05.PROOF-VALUES').  The module is imported lazily (rule modules import each other)."""
+    def run(ctx):
+        import importlib
+        fn = getattr(importlib.import_module("tlsverif.rules." + module), fname)
+        ctx.rename = (src, dst)
+        try:
+            fn(ctx, **kw)
+        finally:
+            ctx.rename = None
+    return run
